@@ -643,8 +643,14 @@ var _ *pb.SharedGroupProposal
 // result means one tryJoin returned nil (an empty list is the bootstrap node's case: nothing to join).
 //@ func (*cluster.Conn).DialAddress
 //@ props C20
-//@ assume
+//@ safety UNCLAIMED
+//@ ghost dialled int = 0
+//@ at call grpc.Dial
+//@ requires [C20 dials-the-given-address] $arg0 == address && dialled == 0
+//@ set dialled = 1
+//@ end
 //@ ensures [conn-xor-error] isnil(ret1) ==> ret0 != nil
+//@ ensures [C20 connection-to-the-given-address] isnil(ret1) ==> dialledAddress(ret0) == address && fresh(ret0)
 //@ modifies nothing
 //@ func (*cluster.Conn).Address
 //@ props C20
